@@ -786,6 +786,48 @@ fn write_element(node: &Node, is_clip_path: bool, opt: &WriteOptions, xml: &mut 
     }
 }
 
+/// Writes the paths of a `clipPath` child group, including the ones in nested groups
+/// and in flattened text, with `ts` being the transform accumulated so far.
+fn write_clip_path_children(
+    g: &Group,
+    ts: Transform,
+    clip_id: Option<&str>,
+    opt: &WriteOptions,
+    xml: &mut XmlWriter,
+) {
+    for child in &g.children {
+        match child {
+            Node::Path(ref path) => write_path(path, true, ts, clip_id, opt, xml),
+            Node::Group(ref inner) => {
+                let inner_clip = inner.clip_path.as_ref().map(|cp| cp.id().to_string());
+                // Only one `clip-path` can be set on the written path.
+                if clip_id.is_some() && inner_clip.is_some() {
+                    continue;
+                }
+
+                write_clip_path_children(
+                    inner,
+                    ts.pre_concat(inner.transform),
+                    clip_id.or(inner_clip.as_deref()),
+                    opt,
+                    xml,
+                );
+            }
+            Node::Text(ref text) => {
+                let flattened = text.flattened();
+                write_clip_path_children(
+                    flattened,
+                    ts.pre_concat(flattened.transform),
+                    clip_id,
+                    opt,
+                    xml,
+                );
+            }
+            Node::Image(_) => {}
+        }
+    }
+}
+
 fn write_group_element(g: &Group, is_clip_path: bool, opt: &WriteOptions, xml: &mut XmlWriter) {
     if is_clip_path {
         // The `clipPath` element in SVG doesn't allow groups, only shapes and text.
@@ -810,19 +852,11 @@ fn write_group_element(g: &Group, is_clip_path: bool, opt: &WriteOptions, xml: &
         //
         // Same with text. Text elements will be converted into groups,
         // but only the group's children should be written.
-        for child in &g.children {
-            if let Node::Path(ref path) = child {
-                let clip_id = g.clip_path.as_ref().map(|cp| cp.id().to_string());
-                write_path(
-                    path,
-                    is_clip_path,
-                    g.transform,
-                    clip_id.as_deref(),
-                    opt,
-                    xml,
-                );
-            }
-        }
+        //
+        // A `transform` on such a text (or on a `use`) adds one more group level,
+        // so nested groups are written too, with the transforms concatenated.
+        let clip_id = g.clip_path.as_ref().map(|cp| cp.id().to_string());
+        write_clip_path_children(g, g.transform, clip_id.as_deref(), opt, xml);
         return;
     }
 
